@@ -50,12 +50,22 @@
                              and the attributes of the object
   * `pong_rejects_non_pong`  anything that has not the presence-pong format is rejected (either variant)
   * `pong_spec_accepted`     the byte-list form used by the reference BMC of C06, any interactions byte
+  * `pong_pack_wellformed`   `AsfPong.pack()` (intended, fixes/C05-3.diff) of ANY well-formed content - every tag, OEM
+                             number, entities and interactions byte - is, behind the RMCP header, exactly the
+                             datagram of ASF 2.0 3.2.4.3 (`Spec.Lan.pongDatagram`)
+  * `pong_pack_parsed_and_accepted`   ... so the specification's parser reads exactly that pong from it and the
+                             library's own `_receive_asf_msg(AsfPong)` accepts it with exactly those fields
+  * `pong_pack_asShipped_counterexample`   as shipped a fresh `AsfPong().pack()` is the 16 data bytes without the
+                             ASF header: not a presence pong, refused by the library's own unpack
+  * `pong_pack_asShipped_never_pong`   as shipped NO attribute values give a presence pong (16 bytes, always)
+  * `pong_pack_variants`     the variants build the same data block, intended = 8-byte ASF header ++ that
   tie
   * `gen_unpack_layout_known`   the slices / indices `IpmiMsg.unpack` uses today are the ones the
                              hand-written `ipmiUnpack` mirrors
 -/
 import PyIpmi.Lemmas.RmcpWire
 import PyIpmi.Model.Md5
+import PyIpmi.Model.PongPack
 namespace PyIpmi.Props.C05
 open PyIpmi PyIpmi.RmcpWire PyIpmi.Gen.RmcpFormats PyIpmi.Spec.Lan
 
@@ -373,6 +383,76 @@ theorem pong_spec_accepted (tag i3 i2 i1 i0 o3 o2 o1 o0 entities interactions : 
   rw [receivePong_ok_iff]
   refine ⟨_, (pong_accepts_iff _ _ _).mpr ⟨_, rfl, rfl, rfl, rfl, rfl, rfl, ?_, rfl⟩⟩
   exact ⟨by simpa using hoem, fun h => by cases h⟩
+
+/-! ### the pong the library BUILDS (`AsfPong.pack`, sent by pyipmi/emulation.py) -/
+
+/-- the RMCP header in front of an ASF message (version 6, reserved, sequence FFh = no ACK, class ASF) -/
+def rmcpAsfHeader : List Nat := [6, 0, 0xff, 6]
+
+/-- `AsfPong.pack` (intended) of any well-formed content is, behind the RMCP header, byte for byte the datagram of
+ASF 2.0 3.2.4.3: header 4542 / 40h / tag / 00h / 10h, then the 16 data bytes. -/
+theorem pong_pack_wellformed (p : Pong) (hw : p.WellFormed) :
+    ∃ sdu, pongPackV .intended p.tag p.oemIana p.oemDefined p.entities p.interactions = .ok sdu ∧
+      rmcpAsfHeader ++ sdu = pongDatagram p := by
+  obtain ⟨h1, h2, h3, h4, h5, _⟩ := hw
+  simp [pongPackV, asfPack, structPack, pongData, asfHeader, packItems, intBytes, h1, h2, h3, h4, h5, beBytes,
+    leBytes, Outcome.bind, pongDatagram, be32, rmcpAsfHeader, Gen.RmcpFormats.asfIana, Spec.Lan.asfIana, asfPong,
+    Nat.div_div_eq_div_mul]
+
+/-- As shipped: a fresh `AsfPong().pack()` is the 16 data bytes alone; behind the RMCP header that is not a presence pong
+for the specification's parser, and the library's own `_receive_asf_msg(AsfPong)` refuses it ('SDU has extra bytes':
+the first data bytes are read as a header announcing 0 data bytes). -/
+theorem pong_pack_asShipped_counterexample :
+    pongPackV .asShipped 0 4542 0 0 0 = .ok [0, 0, 0x11, 0xbe, 0, 0, 0, 0, 0, 0, 0, 0, 0, 0, 0, 0] ∧
+    parsePong (rmcpAsfHeader ++ [0, 0, 0x11, 0xbe, 0, 0, 0, 0, 0, 0, 0, 0, 0, 0, 0, 0]) = none ∧
+    isPongFormat (rmcpAsfHeader ++ [0, 0, 0x11, 0xbe, 0, 0, 0, 0, 0, 0, 0, 0, 0, 0, 0, 0]) = false ∧
+    receivePongV .intended (rmcpAsfHeader ++ [0, 0, 0x11, 0xbe, 0, 0, 0, 0, 0, 0, 0, 0, 0, 0, 0, 0]) = .decodingError := by
+  refine ⟨by decide, by decide, by decide, by decide⟩
+
+/-- The pong the (intended) library builds from any well-formed content is read by the specification's parser as
+exactly that pong, and the library's own receive path accepts it with exactly those fields. -/
+theorem pong_pack_parsed_and_accepted (p : Pong) (hw : p.WellFormed) :
+    ∃ sdu, pongPackV .intended p.tag p.oemIana p.oemDefined p.entities p.interactions = .ok sdu ∧
+      parsePong (rmcpAsfHeader ++ sdu) = some p ∧ isPongFormat (rmcpAsfHeader ++ sdu) = true ∧
+      receivePongV .intended (rmcpAsfHeader ++ sdu) =
+        .ok ⟨4542, 0x40, p.tag, p.oemIana, p.oemDefined, p.entities, p.interactions⟩ := by
+  obtain ⟨sdu, h, e⟩ := pong_pack_wellformed p hw
+  refine ⟨sdu, h, ?_, ?_, ?_⟩
+  · rw [e]; exact (parsePong_iff _ _).mpr ⟨hw, rfl⟩
+  · rw [e]
+    have := wellformed_pong_accepted p hw
+    cases hf : isPongFormat (pongDatagram p)
+    · exact absurd this (pong_rejects_non_pong _ _ hf _)
+    · rfl
+  · rw [e]; exact wellformed_pong_accepted p hw
+
+/-- As shipped NO content helps: whatever the attributes are, what `pack` returns is 16 bytes, and no 20-byte
+datagram has the format of a presence pong. -/
+theorem pong_pack_asShipped_never_pong (tag oi od en ia : Nat) (sdu : List Nat)
+    (h : pongPackV .asShipped tag oi od en ia = .ok sdu) :
+    sdu.length = 16 ∧ isPongFormat (rmcpAsfHeader ++ sdu) = false ∧ parsePong (rmcpAsfHeader ++ sdu) = none := by
+  by_cases h2 : oi < 4294967296 <;> by_cases h3 : od < 4294967296 <;> by_cases h4 : en < 256 <;>
+    by_cases h5 : ia < 256 <;>
+    simp [pongPackV, structPack, pongData, packItems, intBytes, h2, h3, h4, h5, beBytes, leBytes, Outcome.bind] at h
+  subst h
+  simp [rmcpAsfHeader, isPongFormat, parseAsf, parsePong]
+
+/-- the two variants build the same data block; the intended one puts the ASF header in front -/
+theorem pong_pack_variants (tag oi od en ia : Nat) (data : List Nat) (ht : tag < 256)
+    (h : pongPackV .asShipped tag oi od en ia = .ok data) :
+    pongPackV .intended tag oi od en ia = .ok ([0, 0, 0x11, 0xbe, 0x40, tag, 0, 16] ++ data) := by
+  have hl := (pong_pack_asShipped_never_pong tag oi od en ia data h).1
+  simp only [pongPackV] at h ⊢
+  cases hs : structPack pongData [.int oi, .int od, .int en, .int ia] <;> simp [hs, Outcome.bind] at h ⊢
+  subst h
+  simp [asfPack, structPack, asfHeader, packItems, intBytes, ht, hl, beBytes, leBytes, Outcome.bind,
+    Gen.RmcpFormats.asfIana, asfPong]
+
+/-- non-vacuity: a pong with an OEM block, IPMI + ASF 1.0, security extensions, tag FFh -/
+example : (⟨0xff, 343, 0xdeadbeef, 0x81, 0x80⟩ : Pong).WellFormed ∧
+    pongPackV .intended 0xff 343 0xdeadbeef 0x81 0x80 =
+      .ok [0, 0, 0x11, 0xbe, 0x40, 0xff, 0, 0x10, 0, 0, 1, 0x57, 0xde, 0xad, 0xbe, 0xef, 0x81, 0x80, 0, 0, 0, 0, 0, 0] := by
+  refine ⟨by decide, by decide⟩
 
 /-! ### tie to the generated tables -/
 
